@@ -83,10 +83,10 @@ IMPLS = [
 ]
 
 
-def call_impl(L, tables, impl, m, mask, z):
+def call_impl(L, tables, impl, m, mask, z, off=0):
     """z: complex128 vector of length m -> complex128 output (or None), and the table it used"""
     tr, layout, name, how, _ = impl
-    d = Buf(16 * m, fill=0)
+    d = Buf(16 * m, fill=0, off=off)
     zz = np.stack([z.real, z.imag], axis=1)
     d.f64[:] = kernels.to_layout(layout, zz)
     t = None
@@ -192,7 +192,8 @@ def drive(rec, ms, quick):
                     # determinism and immutability of the table
                     blk = L.block(t) if t else None
                     snap = L.snapshot_blocks([blk]) if blk else None
-                    out2, _ = call_impl(L, tables, impl, m, mask, z)
+                    # the repeated call runs on data placed 8, 16, 24 or 40 bytes past a 64-byte boundary (no alignment is documented)
+                    out2, _ = call_impl(L, tables, impl, m, mask, z, off=rng.choice([8, 16, 24, 40]))
                     same = out2 is not None and np.array_equal(out.view(np.uint64), out2.view(np.uint64))
                     unchanged = True if blk is None else (L.snapshot_blocks([blk]) == snap)
                     events.append({"e": "Same", "identical": bool(same), "table_unchanged": bool(unchanged),
